@@ -223,6 +223,7 @@ def count_uses(f, m, bb):
 
 
 def s7s8(fb, chk):
+    recv_data_result(fb, chk)
     rs = recv_sites(fb)
     n7 = n8 = 0
     for f, bb, t, c in rs:
@@ -467,6 +468,34 @@ def recv_data_offset(fb, chk):
                           "Endpoint::recv_data stores the next segment at `%s`, which is not the running total of the bytes received so far: "
                           "a body arriving in several segments is overwritten / never completes" % (show(off)[:60] if off else None),
                           f.loc(st.get("line")))
+
+
+def recv_data_result(fb, chk):
+    """Endpoint::recv_data reports the number of bytes it actually received (the running total), not the number asked for."""
+    ep = endpoint_fns(fb)
+    f = ep.get("recv_data")
+    if f is None:
+        return
+    from vlint.must import Must
+    m = Must(f, fb)
+    rs = [(bb, t, c) for bb, t, c in sites(f, name=set(RECV_PRIMS))]
+    if len(rs) != 1:
+        return
+    call = m.sym.call_at(rs[0][0])
+    ret = m.sym.local(0)
+    alts = ret[2] if ret[0] == "phi" else [ret]
+    oks = [a for a in alts if a[0] == "agg" and a[2] == "Ok" and a[3]]
+    good = bool(oks)
+    shown = None
+    for a in oks:
+        tup = a[3][0][1]
+        cnt = tup[1][0] if tup[0] == "tuple" and tup[1] else None
+        shown = show(cnt)[:60] if cnt else None
+        if cnt is None or not _accumulates(m, cnt, call):
+            good = False
+    chk.check(good, "S7", "recv_data:result", "returns the running total of bytes received",
+              "Endpoint::recv_data returns `%s` as the number of bytes received, not the total it actually read: a body cut short by the "
+              "peer is reported as complete" % shown, f.loc())
 
 
 def loops(fb, chk):
